@@ -223,7 +223,22 @@ type stackRig struct {
 // indistinguishable from the session it wraps (growth item: logging as a refinement of identity).
 var wrapLogging bool
 
+// newStackRig sets up a client/server pair; the server gives version negotiation one second, which a heavily
+// loaded machine can miss: the set-up (not part of any verdict) is retried.
 func newStackRig(capacity int) (*stackRig, error) {
+	var r *stackRig
+	var err error
+	for try := 0; try < 4; try++ {
+		if r, err = newStackRig1(capacity); err == nil {
+			return r, nil
+		}
+		r.cli.Close()
+		time.Sleep(50 * time.Millisecond)
+	}
+	return r, err
+}
+
+func newStackRig1(capacity int) (*stackRig, error) {
 	cli, srv := gconn.Pair(capacity)
 	s := &recS{}
 	r := &stackRig{s: s, cli: cli, done: make(chan struct{})}
